@@ -372,15 +372,15 @@ func optsToValue(o refOpts, rp repr) data.Value {
 		}
 		sort.Ints(ks)
 		for _, k := range ks {
-			out.M = append(out.M, KV{strconv.Itoa(k), vBool(x[int32(k)])})
+			out.M = append(out.M, KV{K: strconv.Itoa(k), V: vBool(x[int32(k)])})
 		}
 		return out
 	}
 	if o.Msg != nil {
-		m.M = append(m.M, KV{"message_fields", bm(o.Msg)})
+		m.M = append(m.M, KV{K: "message_fields", V: bm(o.Msg)})
 	}
 	if o.Packed != nil {
-		m.M = append(m.M, KV{"packed_fields", bm(o.Packed)})
+		m.M = append(m.M, KV{K: "packed_fields", V: bm(o.Packed)})
 	}
 	if o.ElemType != nil {
 		out := vMap()
@@ -390,12 +390,12 @@ func optsToValue(o refOpts, rp repr) data.Value {
 		}
 		sort.Ints(ks)
 		for _, k := range ks {
-			out.M = append(out.M, KV{strconv.Itoa(k), vInt(int64(o.ElemType[int32(k)]))})
+			out.M = append(out.M, KV{K: strconv.Itoa(k), V: vInt(int64(o.ElemType[int32(k)]))})
 		}
-		m.M = append(m.M, KV{"packed_element_type", out})
+		m.M = append(m.M, KV{K: "packed_element_type", V: out})
 	}
 	if o.MaxDepth != 0 {
-		m.M = append(m.M, KV{"max_depth", vInt(int64(o.MaxDepth))})
+		m.M = append(m.M, KV{K: "max_depth", V: vInt(int64(o.MaxDepth))})
 	}
 	if len(m.M) == 0 {
 		return data.NewArrayValue(nil)
@@ -434,7 +434,7 @@ func fieldsToModel(fs []opw.Field) *V {
 		default:
 			val = vNull()
 		}
-		out.L = append(out.L, vMap(KV{"number", vInt(int64(f.Number))}, KV{"wire_type", vInt(int64(f.WireType))}, KV{"value", val}))
+		out.L = append(out.L, vMap(KV{K: "number", V: vInt(int64(f.Number))}, KV{K: "wire_type", V: vInt(int64(f.WireType))}, KV{K: "value", V: val}))
 	}
 	return out
 }
